@@ -183,22 +183,46 @@ class CryptoPair:
         self.aead_tag_size = 16
         self.recv = CryptoContext(setup_cb=recv_setup_cb, teardown_cb=recv_teardown_cb)
         self.send = CryptoContext(setup_cb=send_setup_cb, teardown_cb=send_teardown_cb)
+        # After a locally initiated key update, the previous receive keys are
+        # retained until the peer is seen using the new keys.
+        self._recv_previous: Optional[CryptoContext] = None
         self._update_key_requested = False
 
     def decrypt_packet(
         self, packet: bytes, encrypted_offset: int, expected_packet_number: int
     ) -> tuple[bytes, bytes, int]:
-        plain_header, payload, packet_number, update_key = self.recv.decrypt_packet(
-            packet, encrypted_offset, expected_packet_number
-        )
+        try:
+            plain_header, payload, packet_number, update_key = (
+                self.recv.decrypt_packet(
+                    packet, encrypted_offset, expected_packet_number
+                )
+            )
+        except KeyUnavailableError:
+            raise
+        except CryptoError:
+            if self._recv_previous is None:
+                raise
+            # The peer may not have noticed our key update yet.
+            plain_header, payload, packet_number, update_key = (
+                self._recv_previous.decrypt_packet(
+                    packet, encrypted_offset, expected_packet_number
+                )
+            )
+            if update_key:
+                raise
+            return plain_header, payload, packet_number
         if update_key:
             self._update_key("remote_update")
+        elif self._recv_previous is not None and not is_long_header(plain_header[0]):
+            # The peer is using the new keys, the key update is complete.
+            self._recv_previous = None
         return plain_header, payload, packet_number
 
     def encrypt_packet(
         self, plain_header: bytes, plain_payload: bytes, packet_number: int
     ) -> bytes:
-        if self._update_key_requested:
+        # A subsequent key update must wait for the previous one to complete.
+        if self._update_key_requested and self._recv_previous is None:
             self._update_key("local_update")
         return self.send.encrypt_packet(plain_header, plain_payload, packet_number)
 
@@ -233,18 +257,29 @@ class CryptoPair:
     def teardown(self) -> None:
         self.recv.teardown()
         self.send.teardown()
+        self._recv_previous = None
 
     def update_key(self) -> None:
         self._update_key_requested = True
 
     @property
     def key_phase(self) -> int:
-        if self._update_key_requested:
+        if self._update_key_requested and self._recv_previous is None:
             return int(not self.recv.key_phase)
         else:
             return self.recv.key_phase
 
     def _update_key(self, trigger: str) -> None:
+        if trigger == "local_update":
+            previous = CryptoContext(key_phase=self.recv.key_phase)
+            previous.aead = self.recv.aead
+            previous.cipher_suite = self.recv.cipher_suite
+            previous.hp = self.recv.hp
+            previous.secret = self.recv.secret
+            previous.version = self.recv.version
+            self._recv_previous = previous
+        else:
+            self._recv_previous = None
         apply_key_phase(self.recv, next_key_phase(self.recv), trigger=trigger)
         apply_key_phase(self.send, next_key_phase(self.send), trigger=trigger)
         self._update_key_requested = False
